@@ -31,6 +31,36 @@ impl KeyGen {
     }
 }
 
+/// Shaping of the `--big` histories: caches of hundreds of entries only fill (and their ghost lists, protected
+/// and frequent segments only grow) when most calls insert or hit; so three calls in ten become the put of
+/// a key that walks through the universe, one in ten a hit on a resident key, and purge / removals / a resize
+/// below the original capacity are re-rolled nine times in ten (`destructive` names them for the cache type).
+pub struct BigBias {
+    pub next: u64,
+    pub universe: u64,
+}
+impl BigBias {
+    pub fn new(universe: u64) -> Self {
+        BigBias { next: 0, universe }
+    }
+    pub fn shape(&mut self, r: &mut Rng, vg: &mut ValGen, op: Ints, resident: &[u64], destructive: &[i128], cap0: u64) -> Ints {
+        let c = r.below(100);
+        if c < 30 {
+            let k = self.next % self.universe;
+            self.next += 1 + r.below(2);
+            return vec![0, k as i128, vg.next()];
+        }
+        if c < 40 && !resident.is_empty() {
+            return vec![1, *r.pick(resident) as i128];
+        }
+        let shrink = op[0] == 11 && destructive.contains(&11) && (op[1] as u64) < cap0;
+        if ((destructive.contains(&op[0]) && op[0] != 11) || shrink) && !r.chance(1, 10) {
+            return vec![8];
+        }
+        op
+    }
+}
+
 pub struct ValGen(pub u64);
 impl ValGen {
     pub fn next(&mut self) -> i128 {
